@@ -129,7 +129,9 @@ def solve(q, kw, **over):
     # exactly that) - the solver must read its contents, not recognise the object
     q_in = np.asarray(q, dtype=float)
     form = (_COUNTER[0] + 1) % 6
-    if form in (1, 4) and q_in.ndim == 2:
+    if q_in.ndim == 2 and not q_in.flags.c_contiguous and q_in is q:
+        pass                              # the caller hands over a view (a transposed map): it goes in as it is
+    elif form in (1, 4) and q_in.ndim == 2:
         # ... as a STRIDED view (every second column of a wider table), the same view object refilled in place
         if q_in.shape not in _SOURCE_VIEWS:
             _SOURCE_VIEWS[q_in.shape] = np.zeros((q_in.shape[0], 2 * q_in.shape[1]))[:, ::2]
